@@ -62,20 +62,40 @@ static std::string go(const std::string& kind, int n, bool piv, const Tok& t, MV
 {
   std::size_t pos = 5;
   for (int r = 0; r < n; ++r) for (int c = 0; c < n; ++c) for (int l = 0; l < S; ++l) at(A[r][c], l) = (Sc) unhex(t.at(pos++));
-  if (kind == "solve" || kind == "mv" || kind == "prods")
+  if (kind == "solve" || kind == "mv" || kind == "prods" || kind == "solvealias")
     for (int r = 0; r < n; ++r) for (int l = 0; l < S; ++l) at(b[r], l) = (Sc) unhex(t.at(pos++));
   const MV A0 = A; const XV b0 = b;
   std::string out, tail;
   auto inputs_unchanged = [&]() {
     for (int r = 0; r < n; ++r) { for (int c = 0; c < n; ++c) if (hexv(A[r][c]) != hexv(A0[r][c])) return false; if (hexv(b[r]) != hexv(b0[r])) return false; }
     return true; };
-  auto vec = [&](const XV& y) { std::string o; for (int r = 0; r < n; ++r) { if (r) o += " "; o += hexv(y[r]); } return o; };
-  auto svec = [&](const XS& y) { std::string o; for (int r = 0; r < n; ++r) { if (r) o += " "; o += hex(y[r]); } return o; };
+  auto vec = [&](const XV& y) { std::string o; for (int r = 0; r < n; ++r) { if (r) o += " "; o += hexv(y[r]); } return o.empty() ? std::string("-") : o; };
+  auto svec = [&](const XS& y) { std::string o; for (int r = 0; r < n; ++r) { if (r) o += " "; o += hex(y[r]); } return o.empty() ? std::string("-") : o; };
+  auto mat = [&](const MV& B) { std::string o; for (int r = 0; r < n; ++r) for (int c = 0; c < n; ++c) { if (r || c) o += " "; o += hexv(B[r][c]); } return o.empty() ? std::string("-") : o; };
+  auto smat = [&](const MS& B) { std::string o; for (int r = 0; r < n; ++r) for (int c = 0; c < n; ++c) { if (r || c) o += " "; o += hex(B[r][c]); } return o.empty() ? std::string("-") : o; };
   // ---- the S-lane call
   try {
-    if (kind == "solve") { A.solve(x, b, piv); out = vec(x); if (!inputs_unchanged()) out += " (operand modified)"; }
-    else if (kind == "invert") { MV B = A; B.invert(piv); for (int r = 0; r < n; ++r) for (int c = 0; c < n; ++c) { if (r || c) out += " "; out += hexv(B[r][c]); } }
-    else if (kind == "det") { V d = A.determinant(piv); out = hexv(d); if (!inputs_unchanged()) out += " (operand modified)"; }
+    if (kind == "solve") {
+      A.solve(x, b, piv); out = vec(x); if (!inputs_unchanged()) out += " (operand modified)";
+      // object histories / defaults: a second call into the same x, and the defaulted doPivoting (= true)
+      A.solve(x, b, piv); if (vec(x) != out.substr(0, vec(x).size())) out += " (second call differs)";
+      if (piv) { XV x3 = x; for (int r = 0; r < n; ++r) x3[r] = V(Sc(0)); A.solve(x3, b); if (vec(x3) != vec(x)) out += " (default argument differs)"; }
+    }
+    else if (kind == "solvealias") { x = b; A.solve(x, x, piv); out = vec(x); }                 // x and b the same object
+    else if (kind == "invert") {
+      MV B = A;
+      try { B.invert(piv); } catch (FMatrixError&) { if (mat(B) != mat(A0)) throw std::runtime_error("matrix modified by the throwing invert()"); throw; }
+      out = mat(B);
+      if (piv) { MV B2 = A; B2.invert(); if (mat(B2) != out) out += " (default argument differs)"; }
+      MV B3(B); MV B4 = A; B4 = B; if (mat(B3) != out || mat(B4) != out) out += " (copy of the result differs)";
+    }
+    else if (kind == "det") {
+      V d = A.determinant(piv); out = hexv(d); if (!inputs_unchanged()) out += " (operand modified)";
+      V d2 = A.determinant(piv); if (hexv(d2) != hexv(d)) out += " (second call differs)";
+      if (piv) { V d3 = A.determinant(); if (hexv(d3) != hexv(d)) out += " (default argument differs)"; }
+      try { XV y = b; A.solve(y, b, piv); } catch (FMatrixError&) {}                              // a throwing call in between must leave A usable
+      V d4 = A.determinant(piv); if (hexv(d4) != hexv(d)) out += " (differs after an intermediate solve)";
+    }
     else if (kind == "mv") { A.mv(b, x); out = vec(x); }
     else if (kind == "prods") {
       XV y1 = b, y2 = b, y3 = b, y4 = b; A.mtv(b, y1); A.umv(b, y2); A.mmv(b, y3); A.usmv(V(Sc(0.5)), b, y4);
@@ -89,13 +109,15 @@ static std::string go(const std::string& kind, int n, bool piv, const Tok& t, MV
     else return "UNKNOWN-KIND";
   } catch (FMatrixError&) { out = "EXC FMatrixError"; }
   catch (Dune::Exception& e) { out = "EXC Exception"; }
+  catch (std::runtime_error& e) { out = std::string("INCONSISTENT (") + e.what() + ")"; }
   // ---- the scalar call on every lane
   for (int l = 0; l < S; ++l) {
     for (int r = 0; r < n; ++r) { for (int c = 0; c < n; ++c) As[r][c] = at(A0[r][c], l); bs[r] = at(b0[r], l); }
     std::string o;
     try {
       if (kind == "solve") { As.solve(xs, bs, piv); o = svec(xs); }
-      else if (kind == "invert") { As.invert(piv); for (int r = 0; r < n; ++r) for (int c = 0; c < n; ++c) { if (r || c) o += " "; o += hex(As[r][c]); } }
+      else if (kind == "solvealias") { xs = bs; As.solve(xs, xs, piv); o = svec(xs); }
+      else if (kind == "invert") { As.invert(piv); o = smat(As); }
       else if (kind == "det") { o = hex(As.determinant(piv)); }
       else if (kind == "mv") { As.mv(bs, xs); o = svec(xs); }
       else if (kind == "prods") {
